@@ -17,7 +17,8 @@ RULE = ("Generated structures (1-12 atoms; orthorhombic, LAMMPS-triclinic, arbit
         "unit), t2 with t1 and t3 with t2 token-wise (byte-wise for orthorhombic cells with atoms strictly inside), "
         "ASE's CIF reader must agree with mofun's on cell and positions, and reading variants built from mofun's own "
         "file at token level - (su) parentheses on cell and coordinate numbers, 'P1' spelling, no symmetry tag, "
-        "non-P1 space-group names (must be rejected) - are loaded. Non-trivial: triclinic cell or out-of-cell "
+        "non-P1 space-group names (must be rejected) - are loaded. History: the written object is edited where it is and written again to a path that was "
+        "already written and read once; the reading of that path is compared with the object as it is then. Non-trivial: triclinic cell or out-of-cell "
         "coordinates or at least two loops with extra columns; distinct by generator seed.")
 ASSUMPTIONS = ["PyCifRW 5.0.1 is the only CIF library version observable here", "extra column labels are lower-case CIF data names (CIF names are case-insensitive; the reader lower-cases them)",
                "improper extra columns are not part of a CIF (the torsion loop carries the dihedral columns only)"]
@@ -91,14 +92,13 @@ def load(text, how=0):
     import pathlib
     import shutil
     import tempfile
-    d = tempfile.mkdtemp(prefix="vmon-c15-")
-    try:
-        p = os.path.join(d, "x.cif")
-        with open(p, "w") as f:
-            f.write(text)
-        return Atoms.load(p if how == 1 else pathlib.Path(p))
-    finally:
-        shutil.rmtree(d, ignore_errors=True)
+    from vmon.oracle.util import worker_dir
+    p = os.path.join(worker_dir(), "x.cif")           # the same path from case to case, each time with other content
+    from vmon.oracle.util import prime_path
+    prime_path(p)
+    with open(p, "w") as f:
+        f.write(text)
+    return Atoms.load(p if how == 1 else pathlib.Path(p))
 
 
 def circ(d):
@@ -304,6 +304,48 @@ def run_case(case, ctx):
             raise
         st.count("non_p1_rejected")
     st.seen("class", "%s/%s/%s" % (case["cell"], mode, case["where"]))
+    # history: the object that was written is edited where it is (sizes unchanged) and written again, to the SAME path that
+    # was already written and read once; the second file / second reading must reflect the object as it is then
+    if case["s"] % 2 == 0:
+        import os
+        import shutil
+        import tempfile
+        from mofun import Atoms
+        a.positions *= 0.5
+        a.charges += 0.25
+        if len(a) >= 2:
+            a.atom_types[[0, -1]] = a.atom_types[[-1, 0]]
+        if isinstance(a.cell, np.ndarray) and case["cell"] != "tiny_tilt":
+            a.cell[0] *= 1.5
+        for kind in ("bond", "angle"):
+            arr = getattr(a, atomsgen.ARR[kind])
+            if len(arr) >= 2:
+                arr[[0, -1]] = arr[[-1, 0]]
+                xf = getattr(a, "extra_%s_fields" % kind)
+                if len(xf) == len(arr):
+                    xf[[0, -1]] = xf[[-1, 0]]
+        w2 = dict(w, history="edited in place after the first write", structure_now=atomsgen.describe(a))
+
+        def fail2(msg, cls):
+            ctx.fail("second write/read of the same object at the same path after an in-place edit: %s" % msg, witness=dict(w2, clause=cls))
+        d = tempfile.mkdtemp(prefix="vmon-c15-")
+        try:
+            pth = os.path.join(d, "same.cif")
+            with open(pth, "w") as fh:
+                fh.write(t1)
+            Atoms.load(pth)
+            import contextlib
+            with contextlib.redirect_stdout(io.StringIO()):
+                a.save(pth, use_fract_coords=(mode == "fract"))
+            b4 = Atoms.load(pth)
+            compare_loaded(b4, a, mode, fail2)
+            st.count("second_writes_after_edit")
+        except Exception as e:
+            if type(e).__name__ == "PostBroken":
+                raise
+            fail2("raised %s: %s" % (type(e).__name__, str(e)[:200]), "second_write_raises")
+        finally:
+            shutil.rmtree(d, ignore_errors=True)
     tel = [a.atom_type_elements[int(t)] for t in sorted(set(int(x) for x in a.atom_types))]
     if len(set(tel)) < len(tel):
         st.count("structures_with_two_atom_types_of_one_element")
@@ -329,6 +371,8 @@ def requirements(stats, tier):
         need.append("too few files read back: %d" % stats.get("files_read_back"))
     if stats.nseen("class") < 18:
         need.append("only %d of 18 (cell x mode x placement) classes observed" % stats.nseen("class"))
+    if stats.get("second_writes_after_edit") < (60 if tier == "quick" else 20000):
+        need.append("second writes of an edited object to an already used path: %d" % stats.get("second_writes_after_edit"))
     if stats.nseen("extra_columns") < 4:
         need.append("extra columns not observed on all four loops")
     if stats.get("impropers_with_torsion_columns") < 3:
